@@ -487,7 +487,7 @@ def rust_source_hash(repo=REPO):
                 for f in sorted(fn):
                     if f.endswith((".rs", ".toml")):
                         fp = os.path.join(dp, f)
-                        h.update(fp.encode())
+                        h.update(os.path.relpath(fp, repo).encode())
                         h.update(open(fp, "rb").read())
     return h.hexdigest()
 
